@@ -330,7 +330,7 @@ impl<'r> VGen<'r> {
             0 | 1 | 2 if t != T::Bool => {
                 // a vector of a lower kind next to a bare literal of kind t: computed in (t, n) since fix 40c6233
                 // (was: in a vector of the literal type, which no exporter can name)
-                if n > 1 && (t == T::Int || t == T::Float) && self.rng.chance(1, 6) {
+                if n > 1 && (t == T::Int || t == T::Float) && self.rng.chance(1, if self.opts.pure { 3 } else { 6 }) {
                     return self.lower_vec_op_literal(t, n, d, scope, false);
                 }
                 let op = if is_int { *self.rng.pick(&["+", "-", "*", "/", "%", "&", "|", "^"]) } else { *self.rng.pick(&["+", "-", "*", "/"]) };
@@ -394,7 +394,7 @@ impl<'r> VGen<'r> {
                 format!("{}.{}", self.atom(t, m, d, scope), idx)
             }
             13 if t == T::Bool => {
-                if n > 1 && self.rng.chance(1, 5) {
+                if n > 1 && self.rng.chance(1, if self.opts.pure { 3 } else { 5 }) {
                     let k = if self.rng.chance(1, 2) { T::Int } else { T::Float };
                     return self.lower_vec_op_literal(k, n, d, scope, true);
                 }
